@@ -105,8 +105,14 @@ func (l *LIA) Needs(t *Term) []RangeNeed {
 				walkB(x.Args[0])
 				walkB(x.Args[1])
 			} else if !((l.signedOK(x.Args[0]) && l.signedOK(x.Args[1])) || (l.unsignedOK(x.Args[0]) && l.unsignedOK(x.Args[1]))) {
-				needS(x.Args[0])
-				needS(x.Args[1])
+				// choose the reading one side already supports (unsigned first: concatenations, zero-extensions)
+				if l.unsignedOK(x.Args[0]) || l.unsignedOK(x.Args[1]) || !(l.signedOK(x.Args[0]) || l.signedOK(x.Args[1])) {
+					needU(x.Args[0])
+					needU(x.Args[1])
+				} else {
+					needS(x.Args[0])
+					needS(x.Args[1])
+				}
 			} else {
 				walkV(x.Args[0])
 				walkV(x.Args[1])
@@ -160,6 +166,15 @@ func intLit(v *big.Int) string {
 		return "(- " + new(big.Int).Neg(v).String() + ")"
 	}
 	return v.String()
+}
+
+// constIntSigned: the two's complement value of a constant
+func constIntSigned(t *Term) *big.Int {
+	v := new(big.Int).SetUint64(t.Val)
+	if t.W >= 1 && t.W <= 64 && t.Val>>(uint(t.W)-1) == 1 {
+		v.Sub(v, pow2(t.W))
+	}
+	return v
 }
 
 func constInt(t *Term) *big.Int {
@@ -289,15 +304,26 @@ func (l *LIA) uinfo(t *Term) *liaInfo {
 }
 
 func (l *LIA) signedOK(t *Term) bool {
+	if t.IsConst() {
+		return true // rendered by its signed value where the signed reading is used
+	}
 	a := l.bv(t)
 	lo, hi := signedRange(t.W)
 	return a.ok && within(a.lo, a.hi, lo, hi)
 }
 
 func (l *LIA) unsignedOK(t *Term) bool {
+	if t.IsConst() {
+		return true // rendered by its unsigned value where the unsigned reading is used
+	}
 	a := l.bv(t)
 	lo, hi := unsignedRange(t.W)
 	return a.ok && within(a.lo, a.hi, lo, hi)
+}
+
+// EqSigned: the reading used for an equality of bit-vector terms (signed if both sides support it)
+func (l *LIA) EqSigned(x, y *Term) bool {
+	return l.signedOK(x) && l.signedOK(y)
 }
 
 // boolOK reports whether a Bool term is LIA-safe.
@@ -361,4 +387,39 @@ func (l *LIA) NonNegative(t *Term) bool {
 	a := l.bv(t)
 	lo, hi := signedRange(t.W)
 	return a.ok && within(a.lo, a.hi, lo, hi) && a.lo.Sign() >= 0
+}
+
+// Why names a sub-term that keeps t out of the integer view (diagnostics).
+func (l *LIA) Why(t *Term) string {
+	var bad *Term
+	seen := map[*Term]bool{}
+	var walk func(x *Term)
+	walk = func(x *Term) {
+		if bad != nil || seen[x] {
+			return
+		}
+		seen[x] = true
+		for _, a := range x.Args {
+			walk(a)
+		}
+		if bad != nil {
+			return
+		}
+		if x.W == 0 {
+			if !l.boolOK(x) {
+				bad = x
+			}
+		} else if !l.bv(x).ok {
+			bad = x
+		}
+	}
+	walk(t)
+	if bad == nil {
+		return "?"
+	}
+	s := bad.String()
+	if len(s) > 300 {
+		s = s[:300]
+	}
+	return opNames[bad.Op] + ": " + s
 }
